@@ -10,8 +10,12 @@ type GKAlias = schema.GroupKind
 func installOracles(s *Sim, sc *Scenario) {
 	tr := newTrafficOracle(sc)
 	s.Oracles = append(s.Oracles, &coreOracle{sc: sc}, tr, &faultOracle{sc: sc, tr: tr}, &labelOracle{sc: sc}, &deployOracle{sc: sc}, &diffOracle{sc: sc, tr: tr})
+	prevHook := s.admissionHook
 	s.admissionHook = func(actor string, old, submitted, admitted client.Object) {
-		if actor == "user" && isWorkloadGK(ObjKey{GK: workloadGK(sc)}) && old != nil && submitted.GetName() == sc.Name {
+		if prevHook != nil {
+			prevHook(actor, old, submitted, admitted)
+		}
+		if actor == "user" && isWorkloadGK(ObjKey{GK: workloadGK(sc)}) && old != nil && submitted.GetName() == sc.Name && submitted.GetNamespace() == sc.NS {
 			s.checkAdmission(sc, old, submitted, admitted)
 		}
 	}
